@@ -34,6 +34,12 @@ func Main(cmd string, args []string) int {
 		return schedSmokeMain(args)
 	case "bench":
 		return benchMain(args)
+	case "driversmoke":
+		return driverSmokeMain(args)
+	case "blockssmoke":
+		return blocksSmokeMain(args)
+	case "ctrlsmoke":
+		return ctrlSmokeMain(args)
 	case "writesql":
 		return writesqlMain(args)
 	case "storeops":
